@@ -64,7 +64,7 @@ func init() {
 	reg(&PropDef{
 		ID:    "C06",
 		Title: "The aggregate is the true weighted median / weighted mode of the reports",
-		Funcs: fcNP("x/oracle/keeper.Keeper.WeightedMedian", "x/oracle/keeper.Keeper.WeightedMode"),
+		Funcs: fcNP("x/oracle/keeper.Keeper.WeightedMedian", "x/oracle/keeper.Keeper.WeightedMode", "x/oracle/keeper.Keeper.SetAggregatedReport"),
 		Assumptions: []string{
 			"preconditions from the property's quantifier: non-empty report set, every power >= 1 and < 2^63, total power (every prefix total) < 2^63, median values accepted by big.Int.SetString(.,16), one report per reporter",
 			"sort.SliceStable returns a permutation ordered with respect to the less closure (trusted sort specification); a sum over a slice sorted in place equals the sum over the slice before sorting (trusted lemma attached to the sort specification)",
@@ -96,7 +96,7 @@ func init() {
 		ID:    "C12",
 		Title: "Dispute lifecycle, voting power and tally follow the specified rules",
 		Funcs: fcNP("x/dispute/keeper.Ratio", "x/dispute/keeper.Keeper.UpdateDispute", "x/dispute/keeper.Keeper.AddReporterVoteCount",
-			"x/dispute/keeper.Keeper.SubtractReporterVoteCount", "x/dispute/keeper.Keeper.SetVoterReporterStake"),
+			"x/dispute/keeper.Keeper.SubtractReporterVoteCount", "x/dispute/keeper.Keeper.SetVoterReporterStake", "x/dispute/keeper.Keeper.CloseDispute", "x/dispute/keeper.Keeper.AddDisputeRound"),
 		Assumptions: []string{
 			"reporter-keeper lookups (Delegation, GetReporterTokensAtBlock, GetDelegatorTokensAtBlock) are read-only; their results are unconstrained and referred to as ret(F,i)",
 		},
@@ -223,8 +223,10 @@ func init() {
 		Funcs: fcNP("x/oracle/keeper.msgServer.SubmitValue", "x/oracle/keeper.Keeper.DirectReveal", "x/oracle/keeper.Keeper.HandleBridgeDepositDirectReveal",
 			"x/oracle/keeper.Keeper.TokenBridgeDepositQuery", "x/oracle/keeper.Keeper.SetValue", "x/oracle/keeper.Keeper.CurrentQuery", "x/oracle/keeper.msgServer.Tip",
 			"x/oracle/keeper.Keeper.RotateQueries", "x/oracle/keeper.Keeper.ClearOldqueries", "x/oracle/keeper.Keeper.InitializeQuery",
-			"x/oracle/keeper.Keeper.GetCurrentQueryInCycleList", "x/oracle/keeper.msgServer.UpdateCyclelist"),
+			"x/oracle/keeper.Keeper.GetCurrentQueryInCycleList", "x/oracle/keeper.msgServer.UpdateCyclelist", "x/oracle/keeper.Keeper.SetAggregatedReport", "x/oracle.EndBlocker"),
 		Assumptions: []string{
+			"SetAggregatedReport / EndBlocker are verified under the store invariants stated as their preconditions (a round marked HasRevealedReports is stored under its id and has a report; reports carry their reporter's bech32 string, a power in [1, 2^63), a parsable value; all reports of a round belong to one query; tips are non-negative); SetValue's contract establishes them for the report it writes, the induction over all writers is not carried. The total power of a round is assumed below 2^63 (call-site precondition of the aggregators, not derivable from per-report bounds)",
+			"index iterators are snapshots: removing the round being visited does not change the keys still to come",
 			"trusted contracts: registry DecodeQueryType / DecodeValue / IsValueDecodable / Remove0xPrefix (ABI and string handling), oracle PreventBridgeWithdrawalReport (ABI decoding of the query data), reporter ReporterStake (frame and 0 <= stake < 2^64 whole tokens)",
 			"collections Walk / Iterate / Clear and the ghost cardinality count(store) as specified in tools/govc/walk.go and indexiter.go; crypto.Keccak256 of one argument is a function of its content (keccak)",
 			"round and window arithmetic stays below 2^64 (QuerySequencer < 2^64-2, block height + report window < 2^64); the tipper address passed ValidateBasic",
@@ -232,7 +234,7 @@ func init() {
 		NotDecided: []string{
 			"that bridge-withdrawal queries are never reportable: decided inside PreventBridgeWithdrawalReport by ABI decoding, which is not modelled (only that SubmitValue rejects whatever that function rejects)",
 			"jail status and selector bookkeeping of the reporter (inside ReporterStake, C10)",
-			"'a round with reports produces exactly one aggregate and disappears' (SetAggregatedReport: loop over the HasReveals index with aggregation, rewards and removal) is not under contract yet; only its callees are (WeightedMedian/Mode, SetAggregate, AllocateRewards)",
+			"that the aggregate of a closed round is computed with the method of its data spec (dispatch on the first report's AggregateMethod) and stored exactly once: SetAggregatedReport's contract covers removal of exactly the closed rounds with reports and the frame (open rounds and rounds without reports untouched), not the per-round aggregate",
 			"that the cycle list order is fixed: GetCyclelist returns the stored queries in key order, which the iterator model leaves unspecified",
 		},
 	})
@@ -241,9 +243,9 @@ func init() {
 		Title: "No accepted transaction sequence can make block processing fail",
 		Funcs: fcNP("x/oracle/keeper.Keeper.WeightedMedian", "x/oracle/keeper.Keeper.WeightedMode", "x/oracle/keeper.Keeper.SetValue",
 			"x/oracle/keeper.Keeper.RotateQueries", "x/oracle/keeper.Keeper.GetCurrentQueryInCycleList", "x/oracle/keeper.Keeper.GetCyclelist", "x/oracle/keeper.Keeper.InitCycleListQuery",
-			"x/oracle/keeper.msgServer.UpdateCyclelist", "x/oracle/keeper.Keeper.ClearOldqueries", "x/dispute/keeper.Keeper.UpdateDispute",
+			"x/oracle/keeper.msgServer.UpdateCyclelist", "x/oracle/keeper.Keeper.ClearOldqueries", "x/oracle/keeper.Keeper.SetAggregatedReport", "x/oracle.EndBlocker", "x/dispute/keeper.Keeper.UpdateDispute",
 			"x/dispute.CheckOpenDisputesForExpiration", "x/dispute.CheckClosedDisputesForExecution",
-			"x/mint.BeginBlocker", "x/mint.MintBlockProvision", "x/mint.SetPreviousBlockTime", "x/mint/keeper.Keeper.SendInflationaryRewards", "x/mint/keeper.Keeper.MintCoins"),
+			"x/mint.BeginBlocker", "x/mint.MintBlockProvision", "x/mint.SetPreviousBlockTime", "x/mint/keeper.Keeper.SendInflationaryRewards", "x/mint/keeper.Keeper.MintCoins", "x/mint/types.Minter.CalculateBlockProvision"),
 		Assumptions: []string{
 			"per-function: each block-processing function is shown not to fail or panic under a stated store invariant (its requires), and the writers under contract are shown to establish that invariant; the induction over all handlers and blocks is not carried",
 			"bank.InputOutputCoins fails when the input or an output holds no positive coins (types.ValidateInputOutputs, cosmos-sdk v0.50.9) -- added to the trusted bank specification after the 1 ms mint defect",
@@ -251,7 +253,7 @@ func init() {
 			"trusted contracts of C07 (registry decoding helpers); a submitted value that passes DataSpec.ValidateValue is a non-empty hex string after an optional 0x prefix",
 		},
 		NotDecided: []string{
-			"SetAggregatedReport as a whole (needs the store invariants 'a round marked HasRevealedReports has a report', 'one report per reporter and round', power bounds) and the bridge, reporter and proposal-handler block functions: not under contract; the dispute begin-block loops are covered for panics of the loop and iterator only (TallyVote/ExecuteVote errors propagate and are not excluded)",
+			"SetAggregatedReport is shown panic-free (the index microReports[0], iterator use) and to satisfy the aggregators' preconditions under the stated store invariants, but not error-free: errors of SetAggregate/AllocateRewards/Query.Remove propagate; the bridge and reporter block functions are not under contract; the dispute begin-block loops are covered for panics of the loop and iterator only (TallyVote/ExecuteVote errors propagate and are not excluded)",
 			"RotateQueries can still return an error when a cycle-list entry is not decodable query data (UpdateCyclelist does not validate the entries) -- governance-only input, not excluded",
 			"InitializeQuery / GetDataSpec failures for unregistered query types inside RotateQueries",
 		},
